@@ -812,12 +812,49 @@ func init() {
 	reg("strings.Clone", func(m *Machine, fr *frame, fn *ssa.Function, args []value) (value, bool) { return args[0], true })
 	reg("internal/stringslite.Clone", func(m *Machine, fr *frame, fn *ssa.Function, args []value) (value, bool) { return args[0], true })
 	reg("strconv.Itoa", func(m *Machine, fr *frame, fn *ssa.Function, args []value) (value, bool) {
-		v, ok := args[0].(uint64)
-		if !ok {
-			m.unsupported("strconv.Itoa of symbolic value")
+		switch v := args[0].(type) {
+		case uint64:
+			return strconv.Itoa(int(int64(v))), true
+		case *term.Term:
+			// a symbolic number that cannot be negative is written like an unsigned one
+			if _, hi := term.URange(v); hi < 1<<63 {
+				return &tstr{format: "sym:%d", args: []value{v}}, true
+			}
 		}
-		return strconv.Itoa(int(int64(v))), true
+		m.unsupported("strconv.Itoa of a symbolic value that may be negative")
+		return nil, true
 	})
+	fmtInt := func(signed bool) intrinsic {
+		return func(m *Machine, fr *frame, fn *ssa.Function, args []value) (value, bool) {
+			base, ok := args[1].(uint64)
+			if !ok {
+				m.unsupported("strconv.Format(U)int with a symbolic base")
+			}
+			switch v := args[0].(type) {
+			case uint64:
+				if signed {
+					return strconv.FormatInt(int64(v), int(int64(base))), true
+				}
+				return strconv.FormatUint(v, int(int64(base))), true
+			case *term.Term:
+				if signed {
+					if _, hi := term.URange(v); hi >= 1<<63 {
+						m.unsupported("strconv.FormatInt of a symbolic value that may be negative")
+					}
+				}
+				switch base {
+				case 10:
+					return &tstr{format: "sym:%d", args: []value{v}}, true
+				case 16:
+					return &tstr{format: "sym:%x", args: []value{v}}, true
+				}
+				m.unsupported("strconv.Format(U)int of a symbolic value in base %d", base)
+			}
+			return nil, false
+		}
+	}
+	reg("strconv.FormatUint", fmtInt(false))
+	reg("strconv.FormatInt", fmtInt(true))
 	reg("strconv.Quote", func(m *Machine, fr *frame, fn *ssa.Function, args []value) (value, bool) {
 		s, ok := args[0].(string)
 		if !ok {
